@@ -268,4 +268,47 @@ theorem wordBoundaries_word (sp : Char → Bool) (d : Doc) (hc : d.cur ≤ d.tex
 example : wordBoundaries (· == ' ') ⟨['a', 'b', '.', ' '], 1⟩ false false false = (-1, 1) ∧
     wordBoundaries (· == ' ') ⟨['a', 'b', '.', ' '], 2⟩ false false false = (0, 1) := by decide
 
+/-! ## 10. `find_backwards` reports the nearest occurrence -/
+
+theorem matchAt_reverse' {eq : Char → Char → Bool} {sub x : Text} {p : Nat}
+    (hp : p + sub.length ≤ x.length) (h : matchAt eq sub (x.drop p) = true) :
+    matchAt eq sub.reverse (x.reverse.drop (x.length - p - sub.length)) = true := by
+  have := @matchAt_reverse eq sub.reverse x.reverse p (by simpa using hp) (by simpa using h)
+  simpa using this
+
+/-- **`find_backwards` (count = 1) reports the occurrence nearest to the cursor, and `None` only
+    when there is none**: in the searched text `x` (the text / the current line before the cursor)
+    the needle matches at no start position after the reported one that still ends before the
+    cursor; and if nothing is reported it matches nowhere in `x`. -/
+theorem findBackwards_nearest (eq : Char → Char → Bool) (d : Doc) (sub : Text) (inLine : Bool) :
+    let x := if inLine = true then lineBefore d else d.before
+    (∀ r : Int, findBackwards eq d sub inLine 1 = some r →
+        ∀ p : Nat, (x.length : Int) + r < p → p + sub.length ≤ x.length →
+          matchAt eq sub (x.drop p) = false) ∧
+    (findBackwards eq d sub inLine 1 = none →
+        ∀ p : Nat, p + sub.length ≤ x.length → matchAt eq sub (x.drop p) = false) := by
+  intro x
+  have hnth : ∀ ms : List Nat, nth ms 1 = ms[0]? := by intro ms; simp [nth]
+  have hx : (if inLine = true then (lineBefore d).reverse else d.before.reverse) = x.reverse := by
+    simp only [x]; split <;> rfl
+  obtain ⟨h1, h2⟩ := finditer_first eq sub.reverse x.reverse
+  simp only [findBackwards, hx, hnth]
+  constructor
+  · intro r hr p hp1 hp2
+    obtain ⟨s, hs, rfl⟩ := Option.map_eq_some_iff.mp hr
+    have hno := h1 s hs (x.length - p - sub.length) (by omega)
+    cases hm : matchAt eq sub (x.drop p) with
+    | false => rfl
+    | true => rw [matchAt_reverse' hp2 hm] at hno; cases hno
+  · intro hr p hp2
+    have hnil : finditer eq sub.reverse x.reverse = [] := by
+      cases hl : finditer eq sub.reverse x.reverse with
+      | nil => rfl
+      | cons a as => rw [hl] at hr; simp at hr
+    have hno := h2 hnil (x.length - p - sub.length) (by simp; omega)
+    cases hm : matchAt eq sub (x.drop p) with
+    | false => rfl
+    | true => rw [matchAt_reverse' hp2 hm] at hno; cases hno
+example : findBackwards (· == ·) ⟨['a', 'b', 'a', 'b', 'c'], 5⟩ ['a', 'b'] false 1 = some (-3) := by decide
+
 end Ptk.C02
